@@ -467,7 +467,6 @@ Section Global.
                    inversion I2; subst. contradiction.
              ++ apply (Jn_other cf cf' evs e n d m); auto; try (unfold cf'; rewrite STO; auto).
                 ** apply ORF.
-                ** intros k E. rewrite E in Tm. discriminate Tm.
                 ** intros c1 v1 I1 T1. exfalso. rewrite (TmI c1 T1) in I1.
                    apply Hne. eapply (u_own UN); eauto.
           -- intros d1 m1 c1 o IF T1 Ho1.
@@ -478,11 +477,11 @@ Section Global.
         * (* a raise is impossible *)
           exfalso. exact (NOR d k I).
       + (* the replicate order *)
-        destruct m as [k|t|t]; simpl in TK; try discriminate. unfold ucs_recv in *. rewrite Ad in *. simpl in RNR |- *.
-        assert (NRr : forall st' outs e, (forall x k0, In (EvRaise x k0) e ->
+        destruct m as [k|t|t]; simpl in TK; try discriminate. unfold ucs_recv in *. rewrite Ad in *. cbv beta iota delta [negb] in RNR |- *.
+        assert (NRr : forall e, (forall x k0, In (EvRaise x k0) e ->
                        exists t, MReplicate k = MAnswer t /\ zlookup (t_comp t) (s_inprog (w_st (nodes cf d))) = None
                                  /\ owns C d (t_comp t) = true) -> NRs e).
-        { intros st' outs e H x k0 I. destruct (H x k0 I) as (t & E & _). discriminate. }
+        { intros e H x k0 I. destruct (H x k0 I) as (t & E & _). discriminate. }
         assert (OLDr : forall st' outs d1 m1, InFl cf d1 m1 ->
                   (d1 = d /\ m1 = MReplicate k) \/
                   InFl (mkConfig (upd_node (nodes cf) d (mkWrap true (w_held (nodes cf d)) st')) (send_all (upd_chan (chan cf) s d q) d outs)) d1 m1)
@@ -490,15 +489,15 @@ Section Global.
         assert (OTHER : forall st' outs e n, n <> d -> is_agent C n = true ->
                   Jn (mkConfig (upd_node (nodes cf) d (mkWrap true (w_held (nodes cf d)) st')) (send_all (upd_chan (chan cf) s d q) d outs))
                      (evs ++ e) n).
-        { intros st' outs e n Hne An. apply (Jn_other cf _ evs e n d (MReplicate k)); auto; try (rewrite STO; auto).
-          - apply ORF.
-          - intros c1 v1 _ T1. discriminate. }
+        { intros st' outs e n Hne An. apply (Jn_other cf _ evs e n d (MReplicate k)); auto; try (rewrite STO; auto); try apply ORF.
+          intros c1 v1 _ T1. discriminate. }
         destruct (active_dec d) as [Ac|NA].
         * pose proof (replicate_active C d (w_st (nodes cf d)) k Ac) as RA.
-          destruct (replicate C d (w_st (nodes cf d)) k) as [[[st' outs] e] b]. simpl in *.
+          destruct (replicate C d (w_st (nodes cf d)) k) as [[[st' outs] e] b].
+          cbv beta iota delta [fst snd drop_raised] in RNR, RA |- *.
           destruct RNR as [OUTOK NR0]. destruct RA as (RH & IP & TOK & OG).
           split; [|eapply NRr; eauto].
-          destruct TOK as [TOK|[k' I]]; [|exfalso; eapply (NRr st' outs e NR0); eauto].
+          destruct TOK as [TOK|[k' I]]; [|exfalso; eapply (NRr e NR0); eauto].
           (* d is still before its order: otherwise the potential of one of its computations is 2 *)
           assert (PD : s_inprog (st cf d) = []).
           { destruct (J1 d Ad) as [A _]. destruct (A Ac) as [[_ E]|(Q1 & Q2 & Q3 & Q4)]; auto. exfalso.
@@ -537,7 +536,8 @@ Section Global.
                 unfold owns. apply zmem_In. exact I.
              ++ rewrite STO in I by auto. eapply J4; eauto.
         * pose proof (replicate_trivial C d (w_st (nodes cf d)) k NA) as RT.
-          destruct (replicate C d (w_st (nodes cf d)) k) as [[[st' outs] e] b]. simpl in *.
+          destruct (replicate C d (w_st (nodes cf d)) k) as [[[st' outs] e] b].
+          cbv beta iota delta [fst snd drop_raised] in RNR, RT |- *.
           destruct RNR as [OUTOK NR0]. destruct RT as (-> & RH & (rh & DN) & IP).
           split; [|eapply NRr; eauto].
           split; [|split].
@@ -549,5 +549,78 @@ Section Global.
              ++ rewrite STD in I. destruct IP as [IP|IP]; rewrite IP in I; [eapply J4; eauto|].
                 apply tracker_keys in I as [I|[v' I]]; [unfold owns; apply zmem_In; exact I|eapply J4; eauto].
              ++ rewrite STO in I by auto. eapply J4; eauto.
+  Qed.
+
+  Lemma init_J : J (init P) [].
+  Proof.
+    split; [|split].
+    - intros n An. split; intros _; left; [split|]; try reflexivity; left; reflexivity.
+    - intros d m c o (_ & [(s & [])|(s & [])]).
+    - intros n c v _ [].
+  Qed.
+
+  Lemma exec_J sched : forall cf evs, reachable P cf -> J cf evs ->
+    J (fst (exec P cf sched)) (evs ++ snd (exec P cf sched)) /\ NRs (snd (exec P cf sched)).
+  Proof.
+    induction sched as [|a r IH]; intros cf evs R HJ; simpl.
+    - rewrite app_nil_r. split; auto. intros x k [].
+    - pose proof (step_J cf a evs R HJ) as [J1 N1].
+      assert (R1 : reachable P (fst (step P cf a))) by (constructor; auto).
+      destruct (step P cf a) as [cf1 e1]. simpl in *.
+      specialize (IH cf1 (evs ++ e1) R1 J1). destruct (exec P cf1 r) as [cf2 e2]. simpl in *.
+      destruct IH as [J2 N2]. rewrite app_assoc. split; auto.
+      intros x k I. apply in_app_or in I as [I|I]; [eapply N1|eapply N2]; eauto.
+  Qed.
+
+  Lemma run_J sched : J (fst (run P sched)) (snd (run P sched)) /\ NRs (snd (run P sched)).
+  Proof. unfold run. apply (exec_J sched (init P) [] (reach_init P) init_J). Qed.
+
+  Lemma run_reachable sched : reachable P (fst (run P sched)).
+  Proof. unfold run. apply exec_reachable. constructor. Qed.
+
+  (* no handler of any run raises *)
+  Lemma ucs_no_raise_l sched x k : ~ In (EvRaise x k) (snd (run P sched)).
+  Proof. apply (proj2 (run_J sched)). Qed.
+
+  (* an agent that has not reported done has something pending *)
+  Lemma ucs_pending_l sched n : is_agent C n = true ->
+    done_in (snd (run P sched)) n \/ w_running (nodes (fst (run P sched)) ORCH) = false
+    \/ exists d m, InFl (fst (run P sched)) d m.
+  Proof.
+    intros An. destruct (run_J sched) as [(J1 & _) _]. destruct (J1 n An) as [A B].
+    assert (PRE : pre (fst (run P sched)) n -> w_running (nodes (fst (run P sched)) ORCH) = false
+                  \/ exists d m, InFl (fst (run P sched)) d m).
+    { intros [H|[k H]]; [left; auto|right; eauto]. }
+    destruct (active_dec n) as [Ac|NA].
+    - destruct (A Ac) as [[Pn _]|(Q1 & Q2 & _)]; [right; auto|].
+      destruct (s_inprog (st (fst (run P sched)) n)) as [|[c v] r] eqn:E; [left; auto|].
+      right. right. destruct (Q2 c v (or_introl eq_refl)) as (_ & d & m & IF & _). eauto.
+    - destruct (B NA) as [Pn|D]; [right; auto|left; auto].
+  Qed.
+
+  Definition quiescent (cf : config) : Prop :=
+    (forall u, inU C u = true -> w_running (nodes cf u) = true) /\ (forall s d, chan cf s d = []).
+
+  Lemma ucs_progress_l sched n : is_agent C n = true ->
+    (forall rh, ~ In (EvDone n rh) (snd (run P sched))) ->
+    (exists u, inU C u = true /\ w_running (nodes (fst (run P sched)) u) = false)
+    \/ (exists s d, chan (fst (run P sched)) s d <> []).
+  Proof.
+    intros An ND. destruct (ucs_pending_l sched n An) as [[rh D]|[OF|(d & m & (Ad & [(s & I)|(s & I)]))]].
+    - exfalso. eapply ND; eauto.
+    - left. exists ORCH. split; auto.
+    - right. exists s, d. intro E. rewrite E in I. destruct I.
+    - left. exists d. split; [apply agent_inU; auto|].
+      destruct (w_running (nodes (fst (run P sched)) d)) eqn:Er; auto.
+      rewrite (running_held P _ (run_reachable sched) d Er) in I. destruct I.
+  Qed.
+
+  Lemma ucs_quiescent_all_done_l sched n : is_agent C n = true ->
+    quiescent (fst (run P sched)) -> exists rh, In (EvDone n rh) (snd (run P sched)).
+  Proof.
+    intros An [QR QC]. destruct (ucs_pending_l sched n An) as [D|[OF|(d & m & (Ad & [(s & I)|(s & I)]))]]; auto; exfalso.
+    - rewrite QR in OF; [discriminate|reflexivity].
+    - rewrite QC in I. destruct I.
+    - rewrite (running_held P _ (run_reachable sched) d (QR d (agent_inU C d Ad))) in I. destruct I.
   Qed.
 End Global.
